@@ -14,7 +14,7 @@ CLAIMS = {
  "C04": ("guard dominance (existence and universe guards) over typed HIR", "5 C04",
          "succ/pred existence guards and STRICT flags, universe guard before selecting a zero, strict/non-strict branch shape. The bucket scan arithmetic is not decided."),
  "C05": ("guard dominance + field read-modify-write shape + growth rules over typed HIR", "5 C05",
-         "index/value validation before unchecked accessors with the structure's own mask; growth writes every new element; conversions copy len/width/mask. Histories as such are not explored."),
+         "index/value validation before unchecked accessors with the structure's own mask; growth writes every new element; conversions copy len/width/mask; no shift by the bit width or assertion on it excludes a legal width (0..=W::BITS); mask-building shifts stay below the word size. Histories as such are not explored."),
  "C06": ("guard dominance + reader-mask rules over typed HIR", "5 C06",
          "checked accessors, iterator bounds, last-word masks in count/eq, push clears the target bit. Histories as such are not explored."),
  "C13": ("atomic RMW discipline (load/store/CAS classification by receiver kind and data flow) + field-confinement law", "5 C13",
@@ -32,7 +32,7 @@ CLAIMS = {
  "C16": ("symbolic evaluation of the ShardEdge methods and edge helpers + segment-domain argument + bit-slice agreement", "5 C16",
          "for every impl of ShardEdge: edge(sig) equals local_edge(local_sig(sig)) plus shard(sig)*num_vertices(); the local vertices lie in three consecutive segment windows of the (l+2)*2^s (or 3*seg) cells, hence are distinct and in range; sort_key < num_sort_keys; shard() and Sig::high_bits take the same top bits; set_up_graphs asserts the Vertex bound. The float formulas for s and l are not decided."),
  "C10": ("clamp/partition/flow rules on copy, writer-reader agreement on chunk views, unit rule on unaligned reads, seq/par sibling skeletons", "5 C10",
-         "copy clamps by both vectors and shifts every source word by the difference of the bit offsets in the misaligned branches; try_chunks_mut slices exactly ceil(len*w/BITS) words into ceil(chunk*w/BITS)-word views of min(chunk, remaining) elements; the unaligned read uses bit/8 and bit%8; sequential and parallel fill/flip/reset/count agree; loops are bounded by the logical length. Bit-exact equality of the fast paths is not decided."),
+         "copy clamps by both vectors and shifts every source word by the difference of the bit offsets in the misaligned branches; try_chunks_mut slices exactly ceil(len*w/BITS) words into ceil(chunk*w/BITS)-word views of min(chunk, remaining) elements; the unaligned read uses bit/8 and bit%8; sequential and parallel fill/flip/reset/count agree; loops are bounded by the logical length; apply_in_place_unchecked touches the backend only below the word count after excluding empty and zero-width vectors; every mask-building shift has an amount provably below the word size. Bit-exact equality of the fast paths is not decided."),
  "C11": ("constant evaluation + compiler type layouts + documented-formula families + interval sampling of the expansion factor", "5 C11",
          "bytes of counters per block (from rustc's layouts) over the block size equal the documented overheads; Select9 inventory sizes; Elias-Fano l and high/low sizes follow the documented formula on integers; functions size l from ceil(c*max shard) with l >= 1 and c within 1.23 / 1.135 (known finding for the unsharded logic); packed vectors allocate ceil(len*w/BITS) words. mem_size itself and rounding for tiny inputs are not decided."),
  "C09": ("writer/reader table agreement for the VByte code, block-protocol agreement between builder and decoders, iterator start protocol", "5 C09",
@@ -41,11 +41,13 @@ CLAIMS = {
          "both try_push count the pair once per table using the high bits with the matching mask; both into_shard_store aggregate sizes over chunks of 2^(max - shard bits) under the asserted bound; both shard iterators aggregate/split by the same powers of two, route by the high bits minus the bucket's base, advance both cursors and destroy buckets only when not borrowed; shard() and Sig::high_bits take the same bits. Multiset preservation as such is not decided."),
  "C12": ("unsafe-site census with guard dominance and a table of construction invariants", "5 C12",
          "every unsafe call in a safe function is discharged by dominating facts or rests on a tabled construction invariant; unchecked-precondition functions are unsafe fn; iterator start protocol; universe guard. The construction invariants themselves are assumptions."),
+ "C19": ("control/error-discipline rules on the solvers and a term-level check of the sorted-merge XOR (typed HIR)", "5 C19",
+         "PARTIAL. Decided: echelon_form tests every pivot row non-empty, turns an emptied row with non-zero constant into an error and leaves the inner loop on an identity row before it is indexed again; gaussian_elimination propagates that error and back-substitutes in reverse over non-identity rows with c ^ eval(vars); lazy_gaussian_elimination classifies fully eliminated rows (unsolvable -> error, identity -> skipped, else dense), propagates the dense error and back-substitutes each pivot from its own row; Modulo2Equation::add is the sorted symmetric difference (advance by l<=r, l>=r, output by their XOR, both tails copied, constants XORed). NOT decided: that the returned assignment satisfies every equation and that an error is returned only for unsolvable systems (the weight/priority bookkeeping of the lazy phase is run-time state)."),
+ "C15": ("type-level witnesses (a crate that is only type-checked against the tree) + impl-generality rule over the resolved impls", "5 C15",
+         "PARTIAL. Decided: for every serializable structure (bit vectors, bit-field vectors, rank/select structures and their compositions, the Elias-Fano aliases, rear-coded lists, functions and filters with each backend / signature / shard-edge logic) both the type itself (full-copy deserialization) and its zero-copy image DeserType<'_> (deserialize_eps, mmap) implement the query traits and have the query methods of the original; every query-trait impl of a serializable structure is generic in all storage parameters. NOT decided: that the bytes read back equal the values written (epserde's generated code and run-time data) -- answering *identically* is not decided, only that every loaded instance can be asked."),
 }
 
 NA = {
- "C15": "serialization round trip lives in epserde's generated code and run-time bytes; no necessary structural clause in sux's source (DESIGN 7)",
- "C19": "solver correctness over all GF(2) systems has no guard/pairing/agreement clause; needs symbolic execution or proof (DESIGN 7)",
 }
 PENDING = {}
 
